@@ -782,6 +782,20 @@ def run(ctx):
     check_node_classes(ctx)
     check_write(ctx)
     import_leaf(ctx)
+    # every cell created by a split has its own evidence fields (no sharing between siblings)
+    from .. import partition_step as PS
+    groups = {}
+    for r in PS.fresh_state_records(ctx.model):
+        cobj = ctx.model.classes[r["cls"]]
+        owner, fnm = ctx.model.lookup(r["cls"], r["method"])
+        ctx.ob("R04-FRESH", r["ok"], (owner or cobj).file, "%s.%s" % (r["cls"], r["method"]), "%s [%s]" % (r["construct"], r["cfg"]), r["detail"], finding=False)
+        if not r["ok"]:
+            groups.setdefault(((owner or cobj).file, "%s.%s" % (r["cls"], r["method"]), r["construct"]), []).append(r)
+    for (file, qual, construct), rs in sorted(groups.items()):
+        ctx.add_finding("R04-FRESH", file, qual, construct, "%s (in %d abstract run(s), first: %s)" % (rs[0]["detail"], len(rs), rs[0]["cfg"]))
+    # rewards are credited along parent/child links: a cell's child list must hold exactly its own children (C03's one-step lemma: no aliasing between a child list and a layer, parent/child links consistent)
+    from . import _partition
+    _partition.feed(ctx, (), rename={"R03-ALIAS": "R04-TREE", "R03-LINK": "R04-TREE"})
     return dict(
         explanation=(
             "ONCE: receive_reward of each of the 14 algorithms is walked path by path (own methods inlined, parameters substituted); "
